@@ -172,7 +172,7 @@ Diagnose(t, in, out, mtu, enc) ==
      ELSE IF out[1] # RspOp(r) THEN {"wrong_opcode"}
      ELSE IF BadRange(r) THEN {"invalid_handle_expected"}
      ELSE IF Len(out) <= HdrLen(r) THEN {"empty_list"}
-     ELSE IF RawSize(r, out) < 4 \/ (Len(out) - HdrLen(r)) % RawSize(r, out) # 0 THEN {"malformed"}
+     ELSE IF RawSize(r, out) < (IF r.op = OpReadByType THEN 2 ELSE 4) \/ (Len(out) - HdrLen(r)) % RawSize(r, out) # 0 THEN {"malformed"}
      ELSE LET size == RawSize(r, out)
               n    == (Len(out) - HdrLen(r)) \div size
               ent(i) == SubSeq(out, HdrLen(r) + (i - 1) * size + 1, HdrLen(r) + i * size)
